@@ -62,6 +62,9 @@ def source_shapes(src_text):
     plain, _q = tables.enum_tables()
     logic_names = set().union(*[set(m) for m in plain.values()]) if plain else set()
     for f in fdefs:
+        for lp in ast.walk(f):
+            if isinstance(lp, (ast.For, ast.While)) and any(isinstance(y, (ast.For, ast.While)) and y is not lp for y in ast.walk(lp)):
+                shapes.add("D39-nested-loops-in-function")
         if any(isinstance(x, ast.FunctionDef) and x is not f for x in ast.walk(f)):
             shapes.add("D36-nested-function-definition")
         if f.name in logic_names:
@@ -128,7 +131,7 @@ def source_shapes(src_text):
 
 def clobber_shape_suffix(srcs):
     shapes = sorted(set().union(*[source_shapes(t) for t in srcs.values()]))
-    return "".join(":" + s for s in shapes if s.startswith(("D36", "D37", "D5-")))
+    return "".join(":" + s for s in shapes if s.startswith(("D36", "D37", "D39", "D5-")))
 
 
 def shape_suffix(srcs):
